@@ -25,6 +25,11 @@ Line protocol (one case per line, `key=value` tokens):
      ins / outs = positions of the requested names, in the order of the request
   answer:  B=<blk>|<blk>|..   one block per (output name, input name), outputs first; blk = row;row;..
            E:step (inconsistent step size) / E:index
+
+  dreq <fd|cd|cs> <ser|par> isz= osz= d=<rats> given=<nats|[]> v=<rats> auto=<0|1> last=<rats> ins= outs= xidx= step= poly=
+     a request to a discipline with default inputs d made with input data for the names `given` only (values read
+     from v): linearize (auto=0) or check_jacobian(auto_set_step=True) (auto=1: auto_set_step leaves the data at `last`)
+  answer:  <answer of req> D=<default inputs after the request>
 -/
 
 def kv (toks : List String) (k : String) : Option String :=
@@ -140,9 +145,34 @@ def answerReq (st : Approx) (scheme mode : String) (toks : List String) : String
       | _ => "E:index"
   | _, _, _, _, _, _, _, _, _ => "bad-args"
 
+/-- `dreq`: a request to a discipline whose default inputs are `d`, made with input data for the names `given`
+    only (values read from `v`), through `linearize` (`auto=0`) or `check_jacobian(auto_set_step=True)` (`auto=1`,
+    the executions of `auto_set_step` leave the local data at `last`): blocks, then the default inputs afterwards. -/
+def answerDReq (st : Approx) (scheme mode : String) (toks : List String) : String :=
+  match parseScheme? scheme, kv toks "isz" >>= parseNatList?, kv toks "osz" >>= parseNatList?,
+        kv toks "d" >>= parseRatList?, kv toks "given" >>= parseNatList?, kv toks "v" >>= parseRatList?,
+        kv toks "last" >>= parseRatList?, kv toks "ins" >>= parseNatList?, kv toks "outs" >>= parseNatList?,
+        kv toks "xidx" >>= parseNatList?, kv toks "step" >>= parseStepArg?, kv toks "poly" >>= parsePolys? with
+  | some sch, some isz, some osz, some d, some given, some v, some last, some ins, some outs, some xidx, some sa, some ps =>
+    let D : Disc := ⟨isz, osz, polyFun ps, polyFunG ps⟩
+    let r : Request := ⟨outs, ins, xidx⟩
+    let s := st.resolve sa
+    let auto := (kv toks "auto").getD "0" == "1"
+    let res := DState.run sch (mode == "par") D s ⟨d, d⟩ (checkOps auto last (compsOf isz given) v r)
+    let blocks :=
+      match res.2.getLast? with
+      | some (some bs) => showBlocks bs
+      | _ =>
+        match s with
+        | .vec hs => if hs.length != (compsOf isz ins).length then "E:step" else "E:index"
+        | _ => "E:index"
+    s!"{blocks} D={showRatList res.1.defaults}"
+  | _, _, _, _, _, _, _, _, _, _, _, _ => "bad-args"
+
 def answer (st : Approx) (line : String) : String :=
   match tokens line with
   | "req" :: scheme :: mode :: rest => answerReq st scheme mode rest
+  | "dreq" :: scheme :: mode :: rest => answerDReq st scheme mode rest
   | "grad" :: scheme :: mode :: rest => answerGrad st scheme mode rest
   | "gen" :: scheme :: rest => answerGen st scheme rest
   | "place" :: rest =>
